@@ -103,6 +103,8 @@ func payloadV(p *core.Payload) cq.V {
 type jsonGen struct {
 	r   *rng.R
 	a   actors
+	// type URLs of messages registered on the chain that are neither action nor forwarding attributes
+	foreignURLs []string
 	cdc interface {
 		MarshalJSON(o proto.Message) ([]byte, error)
 		Marshal(o proto.Message) ([]byte, error)
@@ -326,7 +328,14 @@ func (g *jsonGen) mutate(root *jnode) string {
 		copy(o.vals[at+1:], o.vals[at:])
 		o.keys[at], o.vals[at] = k, v
 	}
-	switch g.r.Intn(16) {
+	switch g.r.Intn(17) {
+	case 16: // attributes replaced by a message of another kind the chain knows, with nothing but its type
+		m, ok := pickMember(func(k string, v *jnode) bool { return k == "attributes" && v.kind == 'o' })
+		if !ok || len(g.foreignURLs) == 0 {
+			return ""
+		}
+		m.obj.vals[m.idx] = &jnode{kind: 'o', keys: []jkey{mkKey("@type")}, vals: []*jnode{jstr(g.foreignURLs[g.r.Intn(len(g.foreignURLs))])}}
+		return "attributes-of-a-foreign-registered-type"
 	case 0: // extra root key
 		k := rng.Pick(g.r, []string{"orbiter2", "", "Orbiter", "wasm", "forward", "orbiter "})
 		insert(root, g.r.Intn(len(root.keys)+1), mkKey(k), g.junk())
@@ -376,8 +385,15 @@ func (g *jsonGen) mutate(root *jnode) string {
 				"/noble.orbiter.controller.forwarding.v1.InternalAttributes", "/noble.orbiter.controller.action.v2.FeeAttributes",
 				"noble.orbiter.controller.forwarding.v1.CCTPAttributes", "/noble.orbiter.controller.action.v1.FeeAttributes", "", "/",
 				"/cosmos.bank.v1beta1.MsgSend", "/noble.orbiter.core.v1.Payload", "/noble.orbiter.core.v1.Forwarding", "/google.protobuf.Any",
-				"type.googleapis.com/noble.orbiter.controller.forwarding.v1.CCTPAttributes", "/noble.orbiter.controller.forwarding.v1.cctpattributes"})
+				"type.googleapis.com/noble.orbiter.controller.forwarding.v1.CCTPAttributes", "/noble.orbiter.controller.forwarding.v1.cctpattributes",
+				"/noble.orbiter.component.forwarder.v1.MsgPauseProtocol", "/noble.orbiter.component.adapter.v1.MsgUpdateParams", "/cosmos.bank.v1beta1.MsgSend",
+				"/noble.orbiter.component.executor.v1.MsgPauseAction", "/cosmos.bank.v1beta1.Metadata"})
 			m.obj.vals[m.idx] = jstr(url)
+			if g.r.Chance(45) {
+				// the message of another kind with nothing but its type: no field of the original is left to be refused as unknown
+				m.obj.keys, m.obj.vals = []jkey{m.obj.keys[m.idx]}, []*jnode{m.obj.vals[m.idx]}
+				return "type-url/other-bare"
+			}
 			return "type-url/other"
 		}
 	case 5: // enum spelling
@@ -740,6 +756,20 @@ func JSONFam(r *rng.R, n int) Result {
 	}
 	cdc := s.App.OrbiterKeeper.Codec()
 	g := &jsonGen{r: r, a: newActors(), cdc: cdc}
+	for _, iface := range cdc.InterfaceRegistry().ListAllInterfaces() {
+		if strings.Contains(iface, "orbiter") && strings.HasSuffix(iface, "Attributes") {
+			continue
+		}
+		for _, u := range cdc.InterfaceRegistry().ListImplementations(iface) {
+			if _, a := actURLs[u]; !a {
+				if _, f := fwdURLs[u]; !f {
+					g.foreignURLs = append(g.foreignURLs, u)
+				}
+			}
+		}
+	}
+	sort.Strings(g.foreignURLs)
+	res.Notes["foreign_registered_type_urls"] = len(g.foreignURLs)
 	seen := map[string]bool{}
 	classes := map[string]int{}
 	built := map[string]int{}
